@@ -17,8 +17,10 @@ import (
 	"github.com/IrineSistiana/mosdns/v5/pkg/query_context"
 	"github.com/IrineSistiana/mosdns/v5/pkg/server"
 	"github.com/IrineSistiana/mosdns/v5/pkg/server_handler"
+	"github.com/IrineSistiana/mosdns/v5/plugin/executable/arbitrary"
 	"github.com/IrineSistiana/mosdns/v5/plugin/executable/cache"
 	"github.com/IrineSistiana/mosdns/v5/plugin/executable/ecs_handler"
+	"github.com/IrineSistiana/mosdns/v5/plugin/executable/hosts"
 	"github.com/IrineSistiana/mosdns/v5/plugin/executable/redirect"
 	"github.com/IrineSistiana/mosdns/v5/plugin/executable/sequence"
 	"github.com/IrineSistiana/mosdns/v5/plugin/executable/ttl"
@@ -72,10 +74,22 @@ func buildStore03(r *Run) (*storeChain03, error) {
 	for i, n := 0, []int{0, 0, 1, 2}[r.Rng.Intn(4)]; i < n; i++ {
 		els = append(els, elem{kind: []string{"ttl", "ecs"}[r.Rng.Intn(2)]})
 	}
+	if r.Rng.Intn(3) == 0 { // a plugin that answers locally for names of the rules and lets the sequence go on with that response
+		els = append(els, elem{kind: []string{"hosts", "arbitrary"}[r.Rng.Intn(2)]})
+	}
 	r.Rng.Shuffle(len(els), func(i, j int) { els[i], els[j] = els[j], els[i] })
 	if r.Rng.Intn(3) != 0 { // a redirect above everything (the usual configuration: redirect, cache, forward)
 		for i, e := range els {
 			if e.kind == "redirect" {
+				copy(els[1:i+1], els[:i])
+				els[0] = e
+				break
+			}
+		}
+	}
+	if r.Rng.Intn(2) == 0 { // the local answerer in front of everything: its response passes every redirect and cache of the chain
+		for i, e := range els {
+			if e.kind == "hosts" || e.kind == "arbitrary" {
 				copy(els[1:i+1], els[:i])
 				els[0] = e
 				break
@@ -123,6 +137,41 @@ func buildStore03(r *Run) (*storeChain03, error) {
 			if ch.model != nil {
 				ch.model = append(ch.model, "c")
 			}
+		case "hosts", "arbitrary":
+			// answers for the SOURCES of the chain's rules (and sometimes a target): behind it the sequence goes on with a
+			// response produced for the name as it was asked at that point
+			var names []string
+			for _, l := range els {
+				if l.kind == "redirect" {
+					names = append(names, l.rule.pattern)
+					if r.Rng.Intn(4) == 0 {
+						names = append(names, strings.TrimSuffix(l.rule.target, "."))
+					}
+				}
+			}
+			if e.kind == "hosts" {
+				var entries []string
+				for k, n := range names {
+					entries = append(entries, fmt.Sprintf("%s 10.9.0.%d fd00::9:%d", n, k+1, k+1))
+				}
+				p, err := hosts.NewHosts(&hosts.Args{Entries: entries})
+				if err != nil {
+					return nil, err
+				}
+				plugins[tag] = p
+			} else {
+				var rs []string
+				for k, n := range names {
+					rs = append(rs, fmt.Sprintf("%s. 60 IN A 10.9.1.%d", n, k+1), fmt.Sprintf("%s. 60 IN AAAA fd00::9:1:%d", n, k+1), fmt.Sprintf("%s. 60 IN TXT \"local\"", n))
+				}
+				p, err := arbitrary.NewArbitrary(&arbitrary.Args{Rules: rs})
+				if err != nil {
+					return nil, err
+				}
+				plugins[tag] = p
+			}
+			d += "(" + strings.Join(names, ",") + ")"
+			ch.model = nil
 		case "ttl":
 			plugins[tag] = ttl.NewTTL(0, uint32(1+r.Rng.Intn(100)), uint32(100+r.Rng.Intn(1000)))
 			ch.model = nil
@@ -136,25 +185,10 @@ func buildStore03(r *Run) (*storeChain03, error) {
 		}
 		rules = append(rules, sequence.RuleArgs{Exec: "$" + tag})
 		ch.desc = append(ch.desc, d)
-		// Observation on the UNCHANGED code (reported, not part of the clean-tree run): cache -> redirect(alias -> target) ->
-		// cache -> last plugin that leaves an existing response alone (`matches: "!has_resp"` + forward). A hit of the upper
-		// cache (entry stored with redirect's 1 s CNAME after an empty NOERROR answer the lower cache did not keep) travels
-		// through the redirect to the lower cache, which misses and stores that alias-named response under the TARGET's key;
-		// a direct query for the target within that second is answered with the alias as question. Until that is decided
-		// upstream, an upper cache with a redirect between it and a lower cache is always followed by [has_resp]accept here.
-		forceAccept := false
-		if e.kind == "cache" {
-			sawRedirect := false
-			for _, l := range els[i+1:] {
-				if l.kind == "redirect" {
-					sawRedirect = true
-				}
-				if l.kind == "cache" && sawRedirect {
-					forceAccept = true
-				}
-			}
-		}
-		if e.kind == "cache" && (forceAccept || r.Rng.Intn(2) == 0) {
+		// No accept behind a cache: its hit travels on (through redirects, to other caches) to the last plugin, which
+		// leaves it alone. Finding F16 (fixed in /repo ce116f2): a cache that missed stored such a response - produced in
+		// front of it for another question - under its own key.
+		if e.kind == "cache" && r.Rng.Intn(2) == 0 {
 			rules = append(rules, sequence.RuleArgs{Matches: []string{"$hasResp"}, Exec: "accept"})
 			ch.desc = append(ch.desc, "[has_resp]accept")
 			if ch.model != nil {
